@@ -1412,7 +1412,13 @@ func merge(
 	setOfCredentials map[string][]*credWrapper,
 	separatePresentations bool,
 ) ([]*verifiable.Credential, []*InputDescriptorMapping) { //nolint:lll
-	setOfCreds := make(map[string]int)
+	// credentials are told apart by their id; a credential without an id is only the same as itself.
+	type credKey struct {
+		id string
+		vc *verifiable.Credential
+	}
+
+	setOfCreds := make(map[credKey]int)
 
 	var (
 		result      []*verifiable.Credential
@@ -1432,10 +1438,15 @@ func merge(
 		for _, credWrap := range credentials {
 			credential := credWrap.vc
 
-			if _, ok := setOfCreds[credWrap.uniqueID]; !ok {
+			key := credKey{id: credWrap.uniqueID}
+			if key.id == "" {
+				key.vc = credential
+			}
+
+			if _, ok := setOfCreds[key]; !ok {
 				result = append(result, credential)
 
-				setOfCreds[credWrap.uniqueID] = len(result) - 1
+				setOfCreds[key] = len(result) - 1
 			}
 
 			vcFormat := FormatLDPVC
@@ -1453,11 +1464,11 @@ func merge(
 			}
 
 			if separatePresentations {
-				desc.Path = fmt.Sprintf("$[%d]", setOfCreds[credWrap.uniqueID])
+				desc.Path = fmt.Sprintf("$[%d]", setOfCreds[key])
 				desc.PathNested.Path = "$.verifiableCredential[0]"
 			} else {
 				desc.Path = "$"
-				desc.PathNested.Path = fmt.Sprintf("$.verifiableCredential[%d]", setOfCreds[credWrap.uniqueID])
+				desc.PathNested.Path = fmt.Sprintf("$.verifiableCredential[%d]", setOfCreds[key])
 			}
 
 			descriptors = append(descriptors, desc)
